@@ -5,6 +5,7 @@ import props_subject
 import props_observable
 import props_router
 import props_locale
+import props_path
 SPECS = {
     "C01": props_resource.C01,
     "C02": props_resource.C02,
@@ -19,7 +20,8 @@ SPECS = {
     "C06": props_router.C06,
     "C13": props_router.C13,
     "C19": props_locale.C19,
+    "C18": props_path.C18,
 }
 # specs that can be run (./check) but are not claimed in MANIFEST.json yet
-IN_PROGRESS = set()
+IN_PROGRESS = {"C18"}
 NOT_CLAIMED = {}
